@@ -532,8 +532,96 @@ fn gadget_case(c: &GadgetCase) -> CaseResult {
     Ok(Verdict::nontrivial(format!("{}/{:?}", c.variant, c.fix)))
 }
 
+// ---------------------------------------------------------------------------
+// (D) batching law of Accumulator::accumulate over synthetic accumulators with a known trapdoor
+
+#[derive(Clone, Debug, Serialize, Deserialize)]
+struct BatchCase {
+    /// error of accumulator i is errs[i] * D (0 = the accumulator satisfies the invariant)
+    errs: Vec<i8>,
+    terms: Vec<u8>,
+    collapse: bool,
+    seed: u64,
+}
+
+fn batch_strategy() -> BoxedStrategy<BatchCase> {
+    (1usize..=5, any::<u64>(), any::<bool>(), 0u8..6)
+        .prop_flat_map(|(n, seed, collapse, shape)| {
+            let errs = match shape {
+                // all valid
+                0 => Just(vec![0i8; n]).boxed(),
+                // exactly one invalid
+                1 => (0..n, prop_oneof![Just(1i8), Just(-1i8), -3i8..=3]).prop_map(move |(i, e)| { let mut v = vec![0i8; n]; v[i] = if e == 0 { 1 } else { e }; v }).boxed(),
+                // two invalid with opposite / proportional errors in a chosen ordered pair of slots
+                2 | 3 if n >= 2 => (0..n, 0..n - 1, 1i8..=3, 1i8..=3).prop_map(move |(i, j, a, b)| { let j = if j >= i { j + 1 } else { j }; let mut v = vec![0i8; n]; v[i] = a; v[j] = -b; v }).boxed(),
+                // any small vector
+                _ => proptest::collection::vec(-3i8..=3, n).boxed(),
+            };
+            (errs, proptest::collection::vec(1u8..=3, n)).prop_map(move |(errs, terms)| BatchCase { errs, terms, collapse, seed })
+        })
+        .boxed()
+}
+
+fn batch_case(c: &BatchCase) -> CaseResult {
+    use group::Curve;
+    use midnight_circuits::verifier::Msm;
+    let mut rng = ChaCha20Rng::seed_from_u64(c.seed);
+    let tau = F::random(&mut rng);
+    let d = F::random(&mut rng);
+    let g = G1Projective::generator();
+    let tau_g2 = (midnight_curves::G2Projective::generator() * tau).to_affine();
+    let fe = |e: i8| if e >= 0 { F::from(e as u64) } else { -F::from((-(e as i64)) as u64) };
+    let mut accs = vec![];
+    for (e, t) in c.errs.iter().zip(&c.terms) {
+        // lhs = sum s_j B_j ; rhs = tau * lhs + e * D * G, split over t terms
+        let t = *t as usize;
+        let bs: Vec<F> = (0..t).map(|_| F::random(&mut rng)).collect();
+        let ss: Vec<F> = (0..t).map(|_| F::random(&mut rng)).collect();
+        let lhs_bases: Vec<C> = bs.iter().map(|b| g * b).collect();
+        let total: F = bs.iter().zip(&ss).map(|(b, s)| *b * s).sum::<F>() * tau + fe(*e) * d;
+        let mut rs: Vec<F> = (0..t - 1).map(|_| F::random(&mut rng)).collect();
+        let mut rb: Vec<F> = (0..t - 1).map(|_| F::random(&mut rng)).collect();
+        let partial: F = rs.iter().zip(&rb).map(|(s, b)| *s * b).sum();
+        let last_s = F::random(&mut rng);
+        rs.push(last_s);
+        rb.push((total - partial) * last_s.invert().unwrap());
+        let rhs_bases: Vec<C> = rb.iter().map(|b| g * b).collect();
+        let mut acc = Accumulator::<S>::new(Msm::from_terms(&lhs_bases, &ss), Msm::from_terms(&rhs_bases, &rs));
+        let ok = acc.check(&tau_g2, &Default::default());
+        ensure!(ok == (*e == 0), "harness:synthetic-accumulator-not-as-built", "error {e}: check = {ok}");
+        if c.collapse {
+            acc.collapse();
+        }
+        accs.push(acc);
+    }
+    let all_valid = c.errs.iter().all(|e| *e == 0);
+    let batch = vpcore::catch(|| Accumulator::<S>::accumulate(&accs)).map_err(|p| Failure::new("accumulate:panic", p))?;
+    let mut batch_collapsed = batch.clone();
+    batch_collapsed.collapse();
+    let got = batch.check(&tau_g2, &Default::default());
+    ensure!(batch_collapsed.check(&tau_g2, &Default::default()) == got, "accumulate:collapse-changes-check", "errs {:?}", c.errs);
+    let n_bad = c.errs.iter().filter(|e| **e != 0).count();
+    if all_valid {
+        ensure!(got, "accumulate:valid-batch-rejected", "n = {}", c.errs.len());
+    } else {
+        let sum: i32 = c.errs.iter().map(|e| *e as i32).sum();
+        ensure!(!got, format!("accumulate:batch-of-invalid-accepted:n={}:bad={}", c.errs.len(), n_bad), "errors (multiples of one secret D) {:?} (sum {sum}); the batch passes check although {} accumulators do not", c.errs, n_bad);
+    }
+    Ok(Verdict::of(c.errs.len() >= 2, if all_valid { "all-valid".to_string() } else { format!("invalid:{}", n_bad.min(3)) })
+        .with(format!("n={}", c.errs.len()))
+        .with(if c.errs.iter().map(|e| *e as i32).sum::<i32>() == 0 && !all_valid { "errors-sum-to-zero" } else { "errors-other" }))
+}
+
 fn main() {
     vpcore::main("C20", "fault_enumeration", (3600, 21600), |p| {
+        p.sub(
+            "accumulate.batch",
+            "Accumulator::accumulate over 1..5 synthetic accumulators with a known trapdoor (1..3 terms a side, optionally collapsed) whose errors are small integer multiples of one secret: the batch passes check iff every accumulator does (single errors, cancelling / proportional pairs in every ordered pair of slots, arbitrary small vectors); non-trivial = two or more accumulators",
+            p.tier.pick(1500, 40000),
+            8,
+            batch_strategy,
+            batch_case,
+        );
         p.assume("inner circuits are the standard-library fixture relations with exactly two public inputs (the aggregator's documented limitation); one SRS secret");
         p.sub(
             "ipa",
